@@ -366,7 +366,7 @@ def run(chk):
     model_check(chk)
     r, hists = vlib.dump_hists("Transport", "MC_Transport.cfg", workers=4, timeout=900, heap="2g")
     groups = []
-    ms = model_scripts(chk, hists, 2500 if thorough else 260, 1500 if thorough else 120)
+    ms = model_scripts(chk, hists, 2500 if thorough else 220, 1500 if thorough else 100)
     log("[gen] %d TLC state-cover paths, %d replayed" % (len(hists), len(ms)))
     groups.append(("tlc-state-cover", run_driver(chk, ms, "tlc-state-cover")))
     groups.append(("boundary-sizes", run_driver(chk, boundary_scripts(), "boundary-sizes")))
@@ -381,7 +381,7 @@ def run(chk):
         groups.append(("concurrent-senders-%d" % attempt, evs))
         if looks_broken(evs):
             break
-    validate_all(chk, groups, 4000 if thorough else 450, "real-sessions")
+    validate_all(chk, groups, 4000 if thorough else 320, "real-sessions")
     if thorough:
         # the same driver under ASan + UBSan (the sanitizer is a monitor: its report is the violation)
         g2 = []
